@@ -240,16 +240,80 @@ class Faults:
         return False
 
 
+SYM_MODES = {"u=rwx,go=rx": 0o755, "u=rw,go=r": 0o644, "a=r": 0o444}
+
+
+def emulate_install(argv):
+    """what GNU install(1) does for the argument shapes the generator produces (regular files, known
+    modes); None when the shape is not covered (then the real command is run).  Spawning the real
+    command costs ~0.5 s on the loaded build host; a share of the calls still uses it, and both
+    are compared with the same model."""
+    words = argv[1:]
+    mode, ops, dirs, i = 0o755, [], False, 0
+    while i < len(words):
+        t = words[i]
+        if t == "-d":
+            dirs = True
+        elif t == "-m" or (t.startswith("-m") and len(t) > 2):
+            v = words[i + 1] if t == "-m" else t[2:]
+            i += 1 if t == "-m" else 0
+            if v in SYM_MODES:
+                mode = SYM_MODES[v]
+            elif v and all(c in "01234567" for c in v):
+                mode = int(v, 8)
+            else:
+                return None
+        elif t in ("-C", "-p"):
+            pass
+        elif t.startswith("-"):
+            return None
+        else:
+            ops.append(t)
+        i += 1
+    if dirs:
+        for d in ops:
+            head = d
+            missing = []
+            while head and not os.path.lexists(head):
+                missing.append(head)
+                head = os.path.dirname(head)
+            if not os.path.isdir(head):
+                return None
+        for d in ops:
+            os.makedirs(d, mode=0o755, exist_ok=True)
+            os.chmod(d, mode)
+        return 0, []
+    if len(ops) < 2:
+        return None
+    dest = ops[-1]
+    for src in ops[:-1]:
+        if not os.path.isfile(src) or os.path.islink(src):
+            return None
+    if not os.path.isdir(os.path.dirname(dest)):
+        return None
+    for src in ops[:-1]:
+        target = os.path.join(dest, os.path.basename(src)) if os.path.isdir(dest) else dest
+        if os.path.isdir(target):
+            return None
+        if os.path.lexists(target):
+            os.unlink(target)
+        shutil.copyfile(src, target)
+        os.chmod(target, mode)
+    return 0, []
+
+
 class ExtOracle:
     """stands in for snakeoil's spawn_get_output inside ebd_ipc: every call takes the next plan entry:
     ("real",) runs the command for real, ("say", status, lines) answers without running anything"""
 
-    def __init__(self, plan, real):
+    def __init__(self, plan, real, emulate_ok=True):
         self.plan = list(plan)
         self.real = real
+        self.emulate_ok = emulate_ok
         self.answers = []
         self.calls = []
         self.was_real_status = []
+        self.real_spawns = 0
 
     def __call__(self, command, **kw):
         self.calls.append(list(command))
@@ -258,15 +322,24 @@ class ExtOracle:
         else:
             step = self.plan.pop(0)
         if command[0] != "install":
-            if step[0] == "real":               # never run patch(1)/anything else for real
+            if step[0] in ("real", "emul"):     # never run patch(1)/anything else for real
                 step = ("say", 0, [])
-        elif step[0] != "real" and step[1] == 0:
-            step = ("real",)                    # an install(1) that "succeeds" has to do its work
-        if step[0] == "real":
+        elif step[0] == "say" and step[1] == 0:
+            step = ("emul",)                    # an install(1) that "succeeds" has to do its work
+        emu = None
+        if step[0] == "emul":
+            # (with injected Python-level faults active the emulation would be hit by them)
+            emu = emulate_install(list(command)) if self.emulate_ok else None
+            step = ("real",)
+        if emu is not None:
+            ret, out = emu
+            self.was_real_status.append((ret, True))
+        elif step[0] == "real":
             kw.pop("fd_pipes", None)
             ret, out = self.real(command, **kw)
             out = [l[:-1] if l.endswith("\n") else l for l in out]
             self.was_real_status.append((ret, True))
+            self.real_spawns += 1
         else:
             ret, out = step[1], list(step[2])
         self.answers.append((ret, out))
@@ -336,7 +409,7 @@ class World:
         self.op._ipc_helpers = self.helpers
 
     def run(self, down):
-        oracle = ExtOracle(self.plan, self.ebd_ipc.spawn.spawn_get_output)
+        oracle = ExtOracle(self.plan, self.ebd_ipc.spawn.spawn_get_output, emulate_ok=not self.faults)
         saved = self.ebd_ipc.spawn.spawn_get_output
         self.ebd_ipc.spawn.spawn_get_output = oracle
         old = os.umask(0o022)
@@ -407,6 +480,7 @@ DESTS = ["/usr", "/usr", "/usr/share", "/", "/usr/lib/q", "usr", "/x/y", "/opt"]
 INSOPTS_OK = ["-m0644", "-m0755", "-m 0600", "--mode=0700", "-p", "-m0640 -p", "-m755", "'-m 0600'"]
 INSOPTS_FALLBACK = ["-m u=rwx,go=rx", "-m0644 -C", "-m a=r", "-m u=rw,go=r -C", "-C"]
 INSOPTS_FALLBACK_FAIL = ["-m u=zzz", "-m0648", "-m g=q"]
+REAL_SHARE = 0.2      # share of forced-fallback requests that spawn the real install(1)
 UNKNOWN_OPTS = ["--bogus=1", "extra", "-q", "--xdest=/a", "it's", 'say "hi"', "tab\\tx"]
 
 
@@ -449,10 +523,10 @@ def gen_request(rng, w_plan, flavour):
             opts.append("--diroptions=" + rng.choice(["-m0700", "-m 0750", "-m0755"]))
         elif r < 0.45:
             opts.append("--diroptions=" + rng.choice(["-m u=rwx,go=rx", "-m a=r"]))
-            w_plan.append(("real",))
+            w_plan.append(("real",) if rng.random() < REAL_SHARE else ("emul",))
         elif r < 0.6:
             opts.append("--diroptions=" + rng.choice(["-m u=zzz", "-m0799"]))
-            w_plan.append(("real",) if rng.random() < 0.5 else
+            w_plan.append(("real",) if rng.random() < REAL_SHARE else
                           ("say", rng.choice([1, 2, 256]), rng.sample(STDERR_LINES, rng.randint(0, 3))))
         if rng.random() < 0.1:
             opts.append(rng.choice(UNKNOWN_OPTS))
@@ -467,18 +541,19 @@ def gen_request(rng, w_plan, flavour):
     args = rng.sample(names, n)
     if flavour == "fallback":
         opts.append("--insoptions=" + rng.choice(INSOPTS_FALLBACK))
+        real = rng.random() < REAL_SHARE
         for _ in range(len(set(args))):
-            w_plan.append(("real",))
+            w_plan.append(("real",) if real else ("emul",))
     elif flavour == "fallback_fail":
         r = rng.random()
-        if r < 0.5:
+        if r < REAL_SHARE:
             opts.append("--insoptions=" + rng.choice(INSOPTS_FALLBACK_FAIL))
             w_plan.append(("real",))
         else:
             opts.append("--insoptions=" + rng.choice(INSOPTS_FALLBACK))
             k = rng.randrange(len(args))
             for _ in range(k):
-                w_plan.append(("real",))
+                w_plan.append(("emul",))
             w_plan.append(("say", rng.choice([1, 2, 256, 127]), rng.sample(STDERR_LINES, rng.randint(0, 3))))
     elif rng.random() < 0.4:
         opts.append("--insoptions=" + rng.choice(INSOPTS_OK))
@@ -637,12 +712,13 @@ def bash_read_replies(cases):
         for i, (nf, cmd, _) in enumerate(cases):
             script += (f'DIED=0; PKGCORE_NONFATAL={"true" if nf else "false"}; IPC_CMD={shlex.quote(cmd)}\n'
                        'ret=(); __ebd_read_array ret\n'
-                       'out=$(__ipc_exit "${ret[@]}" 2>/dev/null); rc=$?\n'
-                       'printf "%s\\0%s\\0\\n" "$rc" "$out" >&5\n')
+                       '__ipc_exit "${ret[@]}" >"$O" 2>/dev/null; rc=$?\n'
+                       'printf "%s\\0%s\\0\\n" "$rc" "$(<"$O")" >&5\n')
         with open(os.path.join(td, "s.sh"), "w") as f:
             f.write(script)
         with open(os.path.join(td, "replies"), "rb") as r3, open(os.path.join(td, "out"), "wb") as o5:
-            subprocess.run(["bash", os.path.join(td, "s.sh")], env={**os.environ, "LIB": str(BASH_LIB)},
+            subprocess.run(["bash", os.path.join(td, "s.sh")],
+                           env={**os.environ, "LIB": str(BASH_LIB), "O": os.path.join(td, "o")},
                            close_fds=False, stdin=subprocess.DEVNULL, stdout=subprocess.DEVNULL,
                            stderr=subprocess.DEVNULL, timeout=120,
                            preexec_fn=lambda: (os.dup2(r3.fileno(), 13), os.dup2(o5.fileno(), 15),
@@ -666,9 +742,9 @@ def bash_roundtrip(w, calls):
     script = BASH_PRELUDE + "PKGCORE_EBD_READ_FD=3\nPKGCORE_EBD_WRITE_FD=4\n" + f"cd {shlex.quote(w.src)} || exit 96\n"
     for cmd, nonfatal, opts, args in calls:
         script += (f'DIED=0; PKGCORE_NONFATAL={"true" if nonfatal else "false"}\n'
-                   f'out=$(__ebd_ipc_cmd {shlex.quote(cmd)} {shlex.quote(opts)} '
-                   + " ".join(shlex.quote(a) for a in args) + ' 2>/dev/null); rc=$?\n'
-                   'printf "%s\\0%s\\0\\n" "$rc" "$out" >&5\n'
+                   f'__ebd_ipc_cmd {shlex.quote(cmd)} {shlex.quote(opts)} '
+                   + " ".join(shlex.quote(a) for a in args) + ' >"$O" 2>/dev/null; rc=$?\n'
+                   'out=$(<"$O"); printf "%s\\0%s\\0\\n" "$rc" "$out" >&5\n'
                    'case $out in DIE:*) exit 0;; esac\n')
     script += '__ebd_write_line "phases succeeded"\n'
     with open(os.path.join(td, "s.sh"), "w") as f:
@@ -676,7 +752,8 @@ def bash_roundtrip(w, calls):
     down_r, down_w = os.pipe()   # bash -> python
     up_r, up_w = os.pipe()       # python -> bash
     o5 = open(os.path.join(td, "out"), "wb")
-    p = subprocess.Popen(["bash", os.path.join(td, "s.sh")], env={**os.environ, "LIB": str(BASH_LIB)},
+    p = subprocess.Popen(["bash", os.path.join(td, "s.sh")],
+                         env={**os.environ, "LIB": str(BASH_LIB), "O": os.path.join(td, "o")},
                          stdin=subprocess.DEVNULL, stdout=subprocess.DEVNULL, stderr=subprocess.DEVNULL,
                          preexec_fn=lambda: (os.dup2(up_r, 13), os.dup2(down_w, 14), os.dup2(o5.fileno(), 15),
                                              os.close(down_r), os.close(up_w), os.close(up_r), os.close(down_w),
@@ -849,7 +926,7 @@ def main(chk: Check):
             prop_bad.append((cls, detail))
 
     t0 = time.time()
-    n_sess = int(chk.n(160, 1500) * scale)
+    n_sess = int(chk.n(100, 1500) * scale)
     for i in range(n_sess):
         w, down, meta = gen_session(rng, scratch, i)
         try:
@@ -901,7 +978,7 @@ def main(chk: Check):
     t0 = time.time()
     # ---- real bash round trips
     rq_cases, rt_reply_cases = [], []
-    n_rt = int(chk.n(6, 40) * scale) or 1
+    n_rt = int(chk.n(4, 40) * scale) or 1
     for i in range(n_rt):
         plan = []
         calls = []
@@ -959,12 +1036,12 @@ def main(chk: Check):
     t0 = time.time()
     # ---- small streams
     shlex_cases = [(bs(esc(s)), Raw(rval(impl_call(lambda: shlex.split(s), kinds={"ValueError": "ValueError"}))))
-                   for s in gen_shlex(rng, int(chk.n(250, 3000) * scale))]
+                   for s in gen_shlex(rng, int(chk.n(150, 3000) * scale))]
     chk.count("shlex", len(shlex_cases))
-    repr_cases = [(bs(esc(s)), Raw(rval(repr(s)))) for s in gen_repr(rng, int(chk.n(150, 2000) * scale))]
+    repr_cases = [(bs(esc(s)), Raw(rval(repr(s)))) for s in gen_repr(rng, int(chk.n(90, 2000) * scale))]
     chk.count("repr", len(repr_cases))
     enc_cases = []
-    for kind, code, payload in gen_enc(rng, int(chk.n(120, 1500) * scale)):
+    for kind, code, payload in gen_enc(rng, int(chk.n(80, 1500) * scale)):
         if kind == "n":
             v = ebd_ipc.IpcCommand._encode_ret(None)
         elif kind == "i":
@@ -987,7 +1064,7 @@ def main(chk: Check):
                 "impl": str(ebd_ipc.IpcCommand._encode_ret((2, "tar: not an archive\ntar: Exiting\n")))})
 
     # ---- real bash reading reply lines
-    rd_in = gen_bashrd(rng, int(chk.n(60, 600) * scale), wires[: int(chk.n(120, 400))])
+    rd_in = gen_bashrd(rng, int(chk.n(40, 600) * scale), wires[: int(chk.n(80, 400))])
     rd_out = bash_read_replies(rd_in)
     rd_cases = []
     if len(rd_out) != len(rd_in):
@@ -1012,23 +1089,33 @@ def main(chk: Check):
     tm["small+bash"] = time.time() - t0
     t0 = time.time()
     # ---- evaluate model and spec inside Coq
-    streams = [
-        ("shlex", "bstr", shlex_cases, ["mismatches run_shlex cases"]),
-        ("repr", "bstr", repr_cases, ["mismatches run_repr cases"]),
-        ("enc", "bstr", enc_cases, ["mismatches run_enc cases", "where_ (fun i r => negb (spec_reply_ok i r)) cases"]),
-        ("sess", "bstr", sess_cases,
-         ["mismatches run_session cases", "where_ (fun i r => negb (spec_session_ok i r)) cases"]),
-        ("bashrd", "bstr", rd_cases + rt_reply_cases, ["mismatches run_bashrd cases"]),
-        ("bashrq", "bstr", rq_cases, ["mismatches run_bashrq cases"]),
-    ]
+    streams = [("shlex", "x", shlex_cases), ("repr", "r", repr_cases), ("enc", "e", enc_cases),
+               ("sess", "S", sess_cases), ("bashrd", "b", rd_cases + rt_reply_cases), ("bashrq", "q", rq_cases)]
+    # one cases file (sharded) for all streams: the literal carries a one-letter stream tag (Spec_C32.run_any);
+    # shards are interleaved so that every coqc gets the same mix
+    allc = []
+    for name, tag, cases in streams:
+        for k, (inp, res) in enumerate(cases):
+            assert inp.startswith('"')
+            allc.append(('"' + tag + ":" + inp[1:], res, name, k))
+    nshards = max(1, min(max(int(os.environ.get("C32_SHARDS", "4")), -(-len(allc) // 350)), len(allc)))
+    per = -(-len(allc) // nshards)
+    order = [x for j in range(nshards) for x in allc[j::nshards]]
     spec_bad = []
-    for name, ty, cases, evals in streams:
-        if not ok:
-            break
-        r = chk.coq_eval(name, IMPORTS, ty, cases, evals, shard=int(os.environ.get("C32_SHARD", "150")))
-        if r is None:
+    by_stream = {name: ([], []) for name, _, _ in streams}
+    r_all = chk.coq_eval("all", IMPORTS, "bstr", [(i, r) for i, r, _, _ in order],
+                         ["mismatches run_any cases", "where_ (fun i r => negb (spec_any_ok i r)) cases"],
+                         shard=max(per, 1)) if ok else None
+    if r_all is not None:
+        for which in (0, 1):
+            for gi in r_all[which]:
+                _, _, name, k = order[gi]
+                by_stream[name][which].append(k)
+    for name, tag, cases in streams:
+        if r_all is None:
             continue
-        if len(r) > 1:
+        r = by_stream[name]
+        if True:
             for i in r[1][:3]:
                 detail = {"what": f"Spec_C32 rejects what the implementation did (stream '{name}')",
                           "input": cases[i][0][:3000]}
